@@ -127,7 +127,16 @@ type seqModel struct {
 	ops   map[int]*Op // global op id -> op
 	memo  map[string][2]string
 	evals atomic.Int64 // the checker goroutine may still be winding down after a timeout
+	// The linearizability search is bounded by a deterministic budget of replica
+	// evaluations (not by wall-clock time, which would make the outcome depend on
+	// machine load).  Once stopped, Step answers without touching the module under
+	// test, so a checker goroutine that is still winding down cannot run module code
+	// (and hit yield points) while the next world executes.
+	stopped  atomic.Bool
+	inflight atomic.Int64
 }
+
+const replicaEvalBudget = 30000
 
 func opID(task, idx int) int { return task*1000 + idx }
 
@@ -148,11 +157,19 @@ func (m *seqModel) build(state string) (*Env, *mux.Router[*Comp]) {
 }
 
 func (m *seqModel) eval(state string, id int) (out, next string) {
+	if m.stopped.Load() {
+		return "\x00stopped", state
+	}
+	m.inflight.Add(1)
+	defer m.inflight.Add(-1)
 	key := fmt.Sprintf("%s|%d", state, id)
 	if v, ok := m.memo[key]; ok {
 		return v[0], v[1]
 	}
-	m.evals.Add(1)
+	if m.evals.Add(1) > replicaEvalBudget {
+		m.stopped.Store(true)
+		return "\x00stopped", state
+	}
 	e, r := m.build(state)
 	op := m.ops[id]
 	out = perform(e, r, op)
@@ -190,7 +207,15 @@ func checkLinearizable(w *World, logs []opLog, st *Stats) (porcupine.CheckResult
 		Equal: func(a, b interface{}) bool { return a.(string) == b.(string) },
 	}
 	simrt.SetPoolCfg(simrt.PoolCfg{Fresh: 1, Drop: 100})
-	res := porcupine.CheckOperationsTimeout(model, ops, 4*time.Second)
+	res := porcupine.CheckOperationsTimeout(model, ops, 60*time.Second)
+	exhausted := m.stopped.Load()
+	m.stopped.Store(true) // nothing may evaluate after this point
+	for m.inflight.Load() > 0 {
+		time.Sleep(time.Millisecond)
+	}
+	if exhausted && res != porcupine.Ok {
+		res = porcupine.Unknown // the budget ended the search: inconclusive, never a violation
+	}
 	return res, m
 }
 
